@@ -538,6 +538,11 @@ def _recursive_check_array_types( current ):
       assert isinstance( y, list ) and len(y) == x_len
       y_type = _recursive_check_array_types( y )
       assert y_type is x_type
+      # the sub-arrays are rectangular: equal shapes along their first elements
+      xs, ys = x, y
+      while isinstance( xs[0], list ):
+        xs, ys = xs[0], ys[0]
+        assert len(xs) == len(ys)
     return x_type
 
   assert issubclass( x, Bits ) or is_bitstruct_class( x )
